@@ -446,13 +446,31 @@ def names_of_all(sp):
     return out
 
 
+def rename_tree(sp, old, new):
+    """first node in pre-order carrying the name"""
+    done = [False]
+
+    def go(x):
+        if done[0]:
+            return x
+        if x[1] == old:
+            done[0] = True
+            return (x[0], new) + tuple(x[2:])
+        if x[0] == 'C':
+            return ('C', x[1], [go(c) for c in x[2]])
+        if x[0] == 'W':
+            return ('W', x[1], go(x[2]))
+        return x
+    return go(sp)
+
+
 def no_wrapper_top(sp):
     return sp[0] != 'W'
 
 
 class Script:
-    def __init__(self):
-        self.lines = ["copy wc=" + MODE["wc"]]
+    def __init__(self, spaced=False):
+        self.lines = ["copy wc=" + MODE["wc"] + (" names=spaced" if spaced else "")]
         self.meta = []       # parallel to lines[1:]: dict describing the op for the oracle
 
     def add(self, line, **meta):
@@ -462,7 +480,7 @@ class Script:
 
 def gen_state_script(r):
     """spaces, states, reals conversions and partial copies"""
-    sc = Script()
+    sc = Script(spaced=r.chance(1, 4))
     names = Names()
     spaces = {}
     states = {}
@@ -492,6 +510,12 @@ def gen_state_script(r):
             if r.chance(1, 2):
                 rs = [rand_bits(r) for _ in range(nre)]
                 sc.add(("fromreals %d %d %s" % (s, nre, " ".join(map(str, rs)))).strip(), op="fromreals", sid=s, reals=rs)
+            if r.chance(1, 2):
+                sc.add("sreals %d" % s, op="sreals", sid=s)
+            if r.chance(1, 3):
+                k = r.choice([0, 1, nre, max(0, nre - 1), nre + 2])      # fewer, exactly, more values than the state has
+                rs = [rand_bits(r) for _ in range(k)]
+                sc.add(("sfrom %d %d %s" % (s, k, " ".join(map(str, rs)))).strip(), op="sfrom", sid=s, reals=rs)
         if has_wc(A) and MODE["wc"] != "fixed":
             continue
         for _ in range(r.range(1, 3)):
@@ -501,7 +525,9 @@ def gen_state_script(r):
             b = a if kind == "same" else add_space(B)
             sb = add_state(b, r.chance(2, 3))
             for (d, s) in ((r.choice(sa), sb), (sb, r.choice(sa))):
-                if r.chance(3, 4):
+                if r.chance(1, 4):
+                    sc.add("sop %d %d %s" % (d, s, r.choice(["shl", "shr"])), op="sop", d=d, s=s, rel=kind)
+                elif r.chance(2, 3):
                     sc.add("csd %d %d" % (d, s), op="csd", d=d, s=s, rel=kind)
                 elif no_wrapper_top(A) and no_wrapper_top(B):
                     if r.chance(1, 2):
@@ -528,16 +554,46 @@ def gen_state_script(r):
                     r.shuffle(ns)
                     ns = ns[:r.range(0, len(ns))] + ([names.fresh()] if r.chance(1, 4) else [])
                     sc.add(("csdn %d %d %d %s" % (dst, src, len(ns), " ".join(map(str, ns)))).strip(), op="csdn", d=dst, s=src, names=ns, rel="equal-dimension")
+        # history: one shared component is renamed in A after both spaces were set up and used; from then on it is no
+        # longer common (fresh destination, all three ways to copy)
+        shared = [n for n in common_names(spaces[a], spaces[b]) if find_node(spaces[a], n)[0][0] != 'C']
+        if shared and r.chance(2, 3):
+            old, new_nm = r.choice(shared), names.fresh()
+            spaces[a] = rename_tree(spaces[a], old, new_nm)
+            sc.add("rename %d %d %d" % (a, old, new_nm), op="rename", sp=spaces[a], spid=a)
+            src = add_state(b, False)
+            for how in ("common", "csd"):
+                dst = add_state(a, False)
+                sc.add("%s %d %d" % (how, dst, src), op=how, d=dst, s=src, rel="renamed-after-setup")
+    # boundary: two components of one space carry the SAME name (same shape).  copyStateData is specified for unique names
+    # only, so here the implementation is compared with the model (std::map last-wins vs first child found) but not with
+    # the Python specification
+    if r.chance(1, 3) and MODE["wc"]:
+        n1, k = names.fresh(), r.range(1, 2)
+        A = ('C', names.fresh(), [('R', n1, k), gen_leaf(r, names, False), ('R', n1, k)])
+        B = ('C', names.fresh(), [gen_leaf(r, names, False), ('R', n1, k)])
+        a, b = add_space(A), add_space(B)
+        for (x, y) in ((a, b), (b, a)):
+            src = add_state(y, False)
+            for how in ("common", "csd", "csdn"):
+                dst = add_state(x, False)
+                if how == "csdn":
+                    sc.add("csdn %d %d 1 %d" % (dst, src, n1), op="csdn", d=dst, s=src, names=[n1], rel="duplicate-names")
+                else:
+                    sc.add("%s %d %d" % (how, dst, src), op=how, d=dst, s=src, rel="duplicate-names")
     return sc
 
 
 def gen_storage_script(r, big=False, quick=True):
     sc = Script()
     names = Names()
+    zero_ok = (not big) and r.chance(1, 8)       # a space whose states serialize to 0 bytes (R^0, empty compounds)
     while True:
         A = gen_space(r, names, allow_zero=r.chance(1, 2))
-        if ser_len(A) > 0:
+        if ser_len(A) > 0 or (zero_ok and A[0] != 'W'):
             break
+    if zero_ok and r.chance(1, 2):
+        A = r.choice([('R', names.fresh(), 0), ('C', names.fresh(), []), ('C', names.fresh(), [('R', names.fresh(), 0), ('C', names.fresh(), [])])])
     while True:
         B = gen_space(r, names)
         if ser_len(B) > 0:
@@ -553,6 +609,8 @@ def gen_storage_script(r, big=False, quick=True):
         sc.add(("state %d 1 %d %s" % (i + 1, len(at), " ".join(at))).strip(), op="state", sp=A, atoms=at, regular=False)
     sids = [r.range(1, ndist) for _ in range(k)] if ndist else []
     sc.add(("ss 1 2 %d %d %s" % (r.below(1 << 30), k, " ".join(map(str, sids)))).strip(), op="ss", sids=sids, sp=A, sp2=B)
+    if ser_len(A) > 0 and not big:
+        sc.add(("ssm 1 %d %d %s" % (r.below(1 << 30), k, " ".join(map(str, sids)))).strip(), op="ssm", sids=sids, sp=A)
     return sc
 
 
@@ -754,7 +812,12 @@ def oracle(sc, impl, rc, err):
         if out == "bad-op":
             fail("bad-op", "bad-op on a well-formed line: " + line[:80])
             continue
-        if op == "space":
+        if op in ("csd", "csdn", "common", "sop") and meta.get("rel") == "duplicate-names":
+            # outside the specification (names are not unique): follow the implementation, the model is compared line by line
+            dsp = states[meta["d"]][0]
+            states[meta["d"]] = (dsp, [] if f.get("atoms", "-") == "-" else f["atoms"].split(","))
+            continue
+        if op in ("space", "rename"):
             sp = meta["sp"]
             spaces[int(t[1])] = sp
             cls = "wrapper-of-compound-in-compound" if wc_below_compound(sp) else "plain"
@@ -823,6 +886,48 @@ def oracle(sc, impl, rc, err):
                 fail("copyStateData-transfer", "dest after the common-subspace copy is %s; specification says %s (relation %s)" % (f.get("atoms", "")[:120], join_or(nd)[:120], meta["rel"]))
             elif f.get("res") != "2":
                 fail("copyStateData-result", "result code %s after copying the common subspaces; specification says 2" % f.get("res"))
+        elif op == "sop":
+            (dsp, d), (ssp, s) = states[meta["d"]], states[meta["s"]]
+            res, nd = spec_csd(spaces[dsp], d, spaces[ssp], s)
+            states[meta["d"]] = (dsp, nd)
+            if f.get("atoms") != join_or(nd):
+                fail("copyStateData-transfer", "dest after the ScopedState operator is %s; specification says %s (relation %s)" % (f.get("atoms", "")[:120], join_or(nd)[:120], meta["rel"]))
+        elif op == "sreals":
+            at = states[meta["sid"]][1]
+            want = join_or([a[1:] for a in at if a[0] == 'f'])
+            if f.get("reals") != want:
+                fail("reals-lost", "ScopedState::reals() = %s, the state's doubles are %s" % (f.get("reals", "")[:120], want[:120]), space_class="plain")
+        elif op == "sfrom":
+            spid, at = states[meta["sid"]]
+            rs = list(meta["reals"])
+            new, k = [], 0
+            for a in at:
+                if a[0] == 'f' and k < len(rs):
+                    new.append("f%d" % rs[k])
+                    k += 1
+                else:
+                    new.append(a)
+            states[meta["sid"]] = (spid, new)
+            if f.get("atoms") != join_or(new):
+                fail("reals-roundtrip", "after ScopedState::operator=(reals) with %d values: %s; specification says %s" % (len(rs), f.get("atoms", "")[:120], join_or(new)[:120]))
+        elif op == "ssm":
+            imgs = [image_hex(states[s][1]) for s in meta["sids"]]
+            md = [join_or([str((i * 7 + j * 3) % 11) for j in range(i % 3)], ".") for i in range(len(imgs))]
+            if f.get("n") != str(len(imgs)) or f.get("imgs") != join_or(imgs, ";") or f.get("md") != join_or(md, ";") or out.endswith(" ERR"):
+                fail("states-roundtrip", "GraphStateStorage store/load: %s" % out[:160])
+            else:
+                tr = x.get("trunc", "0/1/?").split("/")
+                inc = re.match(r"^(\d+)(?:/(\d+):(\d+)states/(\d+)metadata)?$", x.get("inconsistent", "0"))
+                if tr[1] != "0":
+                    fail("truncation", "GraphStateStorage::load on a truncated stream: %s of %s offsets wrong, first %s" % (tr[1], tr[0], tr[2] if len(tr) > 2 else "?"),
+                         call="StateStorageWithMetadata::load", kind=(tr[2].split(":")[1] if len(tr) > 2 and ":" in tr[2] else "?"))
+                elif not inc or inc.group(1) != "0":
+                    # as coded: loadStates has added ALL states (with default metadata), loadMetadata clears metadata_ and then fails
+                    ns, nm = (int(inc.group(3)), int(inc.group(4))) if inc and inc.group(3) else (-1, -1)
+                    fail("metadata-inconsistent", "after a load truncated at offset %s the storage holds %d states but %d metadata entries (%s such offsets): "
+                         "getMetadata(i) is out of range for stored states" % (inc.group(2) if inc else "?", ns, nm, inc.group(1) if inc else "?"),
+                         call="StateStorageWithMetadata::loadMetadata",
+                         shape=("all-states-fewer-metadata" if ns == len(imgs) and 0 <= nm < ns else "other"))
         elif op == "ss":
             imgs = [image_hex(states[s][1]) for s in meta["sids"]]
             same_sig = spec_sig(meta["sp"]) == spec_sig(meta["sp2"])
@@ -832,7 +937,9 @@ def oracle(sc, impl, rc, err):
                 fail("marker-accepted", "StateStorage::load with a wrong marker: %s" % f.get("marker"), call="StateStorage::load")
             elif f.get("sig") != ("same" if same_sig else "rej"):
                 fail("signature-accepted", "StateStorage::load of another space's archive: %s" % f.get("sig"), call="StateStorage::load")
-            elif f.get("rb") != join_or(list(map(str, range(len(imgs))))):
+            elif f.get("hist") != "ok":
+                fail("storage-history", "one StateStorage object re-used (junk state, full load, truncated load, full load, second store): %s" % f.get("hist"), call="StateStorage::load")
+            elif f.get("rb") != (join_or(list(map(str, range(len(imgs))))) if ser_len(meta["sp"]) > 0 else "-"):
                 fail("truncation", "states present after loading the record prefixes: %s" % f.get("rb"), call="StateStorage::load")
             else:
                 tr = x.get("trunc", "0/1/?").split("/")
@@ -906,6 +1013,8 @@ def oracle(sc, impl, rc, err):
                     fail("marker-accepted", "PlannerDataStorage::load with a wrong marker: %s" % f.get("marker"), call="PlannerDataStorage::load")
                 elif f.get("sig") != ("same" if same_sig else "rej"):
                     fail("signature-accepted", "PlannerDataStorage::load of another space's archive: %s" % f.get("sig"), call="PlannerDataStorage::load")
+                elif f.get("restore") != "same":
+                    fail("graph-roundtrip", "store(load(store(g))) does not reproduce the archive byte for byte", call="PlannerDataStorage::store")
                 else:
                     tr = x.get("trunc", "0/1/?").split("/")
                     if tr[1] != "0":
@@ -944,6 +1053,8 @@ def oracle(sc, impl, rc, err):
         if meta.get("op") == "csdnu":
             rec["what"] = "substate-of-wrapper"
             rec["call"] = "csdnu"
+            # as coded: StateSpace::getSubstateAtLocation walks the wrapper's StateType as a CompoundState
+            rec["how"] = "bad-downcast-to-CompoundState" if re.search(r"downcast of address \S+ which does not point to an object of type 'CompoundState'", err or "") else "other"
         if meta.get("op") in ("space", "state") and wc_below_compound(meta.get("sp", ('R', 0, 0))):
             rec["what"] = "reals-lost"
             rec["space_class"] = "wrapper-of-compound-in-compound"
@@ -952,7 +1063,9 @@ def oracle(sc, impl, rc, err):
     # LeakSanitizer: only objects lost inside a failing load() are a known finding
     if err and "LeakSanitizer" in err:
         blocks = re.split(r"\n(?=(?:Direct|Indirect) leak of )", err)
-        other = [b for b in blocks[1:] if not re.search(r"(StateStorage|PlannerDataStorage)::load", b)]
+        # as coded: the objects lost are those allocated inside loadStates / loadVertices / loadEdges (scratch buffer, states,
+        # controls, the vertex/edge object boost created for the record being read) when the archive_exception skips their cleanup
+        other = [b for b in blocks[1:] if not re.search(r"StateStorage::loadStates|PlannerDataStorage::loadVertices|PlannerDataStorage::loadEdges", b)]
         if other:
             fails.append((len(impl), {"engine": ENGINE, "what": "leak", "where": "other"}, "memory leaked outside a failing load(): " + other[0][:400]))
         else:
@@ -1021,8 +1134,8 @@ def judge_graph(pd, f, orig_dump, loaded):
         causes = set()
         for g in lost:
             o = inv[g]
-            if pd.verts[o]["start"]:
-                causes.add("start-and-goal-vertex")
+            if pd.verts[o]["start"] and g in starts:
+                causes.add("start-and-goal-vertex")     # as coded: such a vertex comes back as a start (and only that)
             elif not std_binary_search(raw, o):
                 causes.add("unsorted-goal-list")
             else:
@@ -1139,6 +1252,8 @@ def script_from_lines(lines):
     sc = Script()
     if lines and lines[0].startswith("copy wc="):
         sc.lines[0] = lines[0]
+    elif lines and "names=spaced" in lines[0]:
+        sc.lines[0] += " names=spaced"
     spaces = {}
     cdim = None
     rel = "corpus"
@@ -1149,6 +1264,9 @@ def script_from_lines(lines):
             sp, _ = parse_sp(t, 2)
             spaces[int(t[1])] = sp
             sc.add(line, op=op, sp=sp)
+        elif op == "rename":
+            spaces[int(t[1])] = rename_tree(spaces[int(t[1])], int(t[2]), int(t[3]))
+            sc.add(line, op=op, sp=spaces[int(t[1])], spid=int(t[1]))
         elif op == "state":
             sc.add(line, op=op, sp=spaces[int(t[2])], atoms=t[4:], regular=False)
         elif op == "fromreals":
@@ -1161,6 +1279,14 @@ def script_from_lines(lines):
             sc.add(line, op=op, d=int(t[1]), s=int(t[2]), rel=rel)
         elif op == "csdnu":
             sc.add(line, op=op, d=int(t[1]), s=int(t[2]), names=list(map(int, t[4:])), rel=rel)
+        elif op == "sop":
+            sc.add(line, op=op, d=int(t[1]), s=int(t[2]), rel=rel)
+        elif op == "sreals":
+            sc.add(line, op=op, sid=int(t[1]))
+        elif op == "sfrom":
+            sc.add(line, op=op, sid=int(t[1]), reals=list(map(int, t[3:])))
+        elif op == "ssm":
+            sc.add(line, op=op, sids=list(map(int, t[4:])), sp=spaces[int(t[1])])
         elif op == "ss":
             sc.add(line, op=op, sids=list(map(int, t[5:])), sp=spaces[int(t[1])], sp2=spaces[int(t[2])])
         elif op == "pdnew":
@@ -1298,7 +1424,7 @@ MANIFEST = {
     "design_ref": "DESIGN.md 2.9",
     "text": "Lean 4 theorems, by mutual structural induction over arbitrarily nested space trees (compounds, wrappers, zero-length "
             "components), about an executable model of OMPL's state copy / clone / serialize / deserialize (running offsets as coded), "
-            "getValueAddressAtIndex (the compound double loop, literally) and the value-location enumeration, copyToReals/copyFromReals, "
+            "getValueAddressAtIndex (the compound double loop, literally) and the value-location enumeration, copyToReals/copyFromReals, ScopedState reals()/operator=(reals)/<</>>, "
             "both copyStateData overloads (state transferred = exactly the common subspaces; complete ALL/SOME/NO result code incl. the "
             "empty-compound corner), getCommonSubspaces (std::set ordering and the erase loop as coded: no common subspace is lost), "
             "computeSignature, and of the StateStorage / PlannerDataStorage (geometric and control) archives at record granularity with "
@@ -1312,11 +1438,11 @@ MANIFEST = {
     "covers": "modelled+proved: serialize/deserialize/serLen/copyState/cloneState, addrAtIndex, valueLocations(+repaired variant), reals round "
               "trip, csd/csdNames state and result code, commonSubspaces, signature shape, storeStates/loadStates, storeGraph/loadGraph, "
               "PlannerData add/mark/remove invariants, binary search; compared only: equalStates of copies, boost byte framing (enumerated), "
-              "substate map as printed, control-space images; sampled: the scripts (251 quick / 1321 thorough) and the truncation offsets of "
+              "substate map as printed, control-space images, GraphStateStorage metadata (driven + oracle, not modelled), duplicate-name spaces (model vs code only); sampled: the scripts (251 quick / 1321 thorough) and the truncation offsets of "
               "archives larger than the exhaustive cap",
     "note": "Trusted: Lean kernel, the three standard axioms, the hand-written model outside the scripts the correspondence explored, the "
             "harness (own typed state walk; global operator new/delete replaced by malloc/free wrappers so that an absurd allocation throws "
             "std::bad_alloc under ASan), boost::archive framing (enumerated, not modelled). Spaces with equal names are assumed structurally "
-            "equal; names are unique within a space. Known findings: F31, F33, F105 (and F107, probe only); fixed: F29, F30, F32, F106.",
+            "equal; names are unique within a space. Known findings: F31, F33, F105, F108 (and F107, probe only); fixed: F29, F30, F32, F106.",
     "technique": "Lean 4 proof (mutual structural induction over the space tree) + differential correspondence + byte-level fault enumeration",
 }
